@@ -191,10 +191,21 @@ def long_inputs(ctx, exe):
         got[(c.sid, at)] = untok(ret)
     x_c12.run_cases(ctx, exe, [], cases, lambda c, at, f: "long-input " + keyfn(c, at, f), "long_inputs", recorder=recorder)
     events, index = [], []
+    blank = lambda t: isinstance(t, list) and len(t) > 0 and all(ch in (32, 9, 10, 11, 12, 13) for ch in t)
     for c in cases:
         for at, op in ((0, "split"), (1, "tok")):
             if (c.sid, at) in got:
-                events.append({"op": op, "d": c.meta["d"], "s": c.meta["s"], "ret": got[(c.sid, at)]})
+                ret = got[(c.sid, at)]
+                if op == "tok" and any(blank(t) for t in ret):
+                    # A trimmed token is empty or starts and ends with a non-blank (law TokAgreesWithSplitModuloTrim of the
+                    # reference), so an all-blank token is a violation by itself.  It is reported under its own key and the
+                    # token is normalised so that TLC still validates everything else in this event.
+                    ctx.report("long-input tok d=%s ret/blank-token-not-trimmed" % dclass(c.meta["d"]),
+                               "tok on a %d-character input returned an all-blank token (a trimmed token is empty or has non-blank ends)" % len(c.meta["s"]),
+                               {"harness_args": [], "script_text": x_c12.Case(1, [("tok", c.steps[at][1], tok([[] if blank(t) else t for t in ret]), None)]).text(),
+                                "note": "expected value = recorded value with the all-blank tokens emptied"})
+                    ret = [[] if blank(t) else t for t in ret]
+                events.append({"op": op, "d": c.meta["d"], "s": c.meta["s"], "ret": ret})
                 index.append((c, at))
     if not events:
         raise Broken("no long input could be recorded")
